@@ -110,6 +110,11 @@ def r1234_writer(ctx, chk):
                 label, "!%s" % chr(conv) if conv != -1 else "", ":" + spec if spec else ""), expected="plain {value}", found=show(holes[0])[:100], construct="save_results format %s" % label)
             continue
         spec_row = LABELS[label]
+        al = C12.key_aliases(ctx)
+        if spec_row[0] == "key" and spec_row[1] in al:
+            spec_row = ("key", al[spec_row[1]])
+        elif spec_row[0] == "equal":
+            spec_row = ("equal", al.get(spec_row[1], spec_row[1]), al.get(spec_row[2], spec_row[2]))
         if spec_row[0] == "name":
             want = name_t
         elif spec_row[0] == "key":
